@@ -472,6 +472,12 @@ impl ValueTable {
 					)))
 				}
 
+				if stack.len() as u64 >= filled {
+					return Err(crate::error::Error::Corruption(format!(
+						"Free list of table {} is longer than the table ({} entries): cycle",
+						self.id, filled
+					)))
+				}
 				stack.insert(0, next);
 
 				let mut buf = PartialEntry::new_uninit();
